@@ -94,8 +94,12 @@ CLAIMED = {
               'EXACT-READ (only read_exact of fixed/sliced lengths, 1-byte reads or pass-through) and MULTISTREAM-GUARD.',
               'whether the range decoder\'s lazy normalisation pulls exactly as many bytes as the encoder flushed.'),
     'C17': _c('static: unit inference {bytes, KiB} + dominance + interval analysis',
-              'KIB-UNITS over the estimator call tree, LIMIT-BEFORE-ALLOC, INT-OVF-EST.',
-              'estimate >= real peak heap and within a constant factor (needs allocation measurements).'),
+              'KIB-UNITS over the estimator call tree, LIMIT-BEFORE-ALLOC (limit test dominates every allocating call and is computed '
+              'from the very parameters the reader is built with), INT-OVF-EST, ESTIMATE-TWIN (per estimated type: bytes allocated '
+              'by the constructor, as a linear form over its size parameters with element sizes from the layout, are dominated '
+              'term by term by the estimator formula; sub-objects have their estimator called).',
+              'allocations made after construction (growth of vectors at run time), allocator overhead, the "within a constant '
+              'factor" upper side; LZMAEncoder::get_mem_usage itself (mode dispatch through a reassigned local).'),
     'C18': _c('static: provenance of the slice handed to the current unit; dominance of size checks',
               'UNIT-CLAMP (4 writers), EXPECTED-SIZE (LZMAWriter declared size), OPT-CLAMP (unit-size options raised to the '
               'dictionary size, never lowered below it).',
